@@ -14,3 +14,12 @@ impl<'a, T> FetchMut<'a, T> {
     pub open spec fn wf(&self) -> bool { self.inner.target().ty() == type_of::<T>() }
     pub open spec fn cell(&self) -> int { self.inner.cell() }      // C08: the cell whose exclusive borrow the guard owns
 }
+impl<'a, T> Entry<'a, T> {
+    // C09: an entry of the world for the id of type T
+    #[verifier::prophetic]
+    pub open spec fn for_world(&self, old_w: &World, new_w: &World) -> bool {
+        &&& self.inner.key() == rid::<T>()
+        &&& self.inner.value() == old_w.resources@.get(rid::<T>())
+        &&& new_w.resources@ == (match self.inner.final_value() { Some(v) => old_w.resources@.insert(rid::<T>(), v), None => old_w.resources@.remove(rid::<T>()) })
+    }
+}
